@@ -10,8 +10,8 @@ void __sanitizer_start_switch_fiber(void **fake_stack_save, const void *bottom, 
 void __sanitizer_finish_switch_fiber(void *fake_stack_save, const void **bottom_old, size_t *size_old) __attribute__((weak));
 }
 
-// void sim_ctx_switch(void **save_sp, void *load_sp): save callee-saved registers and the stack
-// pointer of the current context, continue on the other one.
+// void sim_ctx_switch(void **save_sp, void *load_sp): save callee-saved registers, the floating-point control state (MXCSR and
+// the x87 control word are per thread, and callee-saved by the ABI) and the stack pointer of the current context, continue on the other one.
 asm(R"(
     .text
     .globl sim_ctx_switch
@@ -23,8 +23,14 @@ sim_ctx_switch:
     pushq %r13
     pushq %r14
     pushq %r15
+    subq $8, %rsp
+    stmxcsr (%rsp)
+    fnstcw 4(%rsp)
     movq %rsp, (%rdi)
     movq %rsi, %rsp
+    ldmxcsr (%rsp)
+    fldcw 4(%rsp)
+    addq $8, %rsp
     popq %r15
     popq %r14
     popq %r13
@@ -92,6 +98,7 @@ int Tasks::spawn(const std::string &name, std::function<int()> entry) {
     *--top = 0;                      // fake return address of trampoline (never used)
     *--top = (uint64_t)&Tasks::trampoline;
     for (int i = 0; i < 6; i++) *--top = 0;
+    *--top = 0x0000037F00001F80ULL;  // floating-point control state of a fresh thread: MXCSR 0x1F80, x87 control word 0x037F
     t->sp = top;
     tasks_.push_back(t);
     return id;
